@@ -6,7 +6,10 @@ rand_argmin, simple_batch, majority_vote, _greedy_sampling, k_greedy_center, ...
 random_state omitted or literally None; 2 = check_random_state(None) / check_random_state() ;
 3 = an estimator whose constructor accepts random_state built without one (incl. the dynamic
 `self.cluster_algo(**cluster_algo_dict)` pattern); 4 = a seed selected by truthiness (`random_state or <fallback>`,
-`<x> if random_state else <y>`): the valid seed 0 silently takes the fallback."""
+`<x> if random_state else <y>`): the valid seed 0 silently takes the fallback; 5 = the raw constructor parameter
+`self.random_state` handed on by a strategy / wrapper (anything but `check_random_state(self.random_state, ...)` of
+skactiveml.utils, which copies, or `deepcopy(self.random_state)`): with a RandomState instance the caller's generator is
+advanced and the per-call copy `self.random_state_` is bypassed."""
 import ast
 import importlib
 import inspect
@@ -16,6 +19,16 @@ from ..repo_root import REPO
 HELPERS = {"rand_argmax": 1, "rand_argmin": 1, "simple_batch": 1, "majority_vote": 4, "_greedy_sampling": None, "k_greedy_center": 3,
            "batch_bald": None, "_bootstrap_estimators": None, "_conditional_expect": None, "_cross_entropy": None}
 GLOBAL_OK = {"RandomState", "default_rng", "Generator", "get_state", "set_state", "seed", "SeedSequence", "MT19937", "BitGenerator"}
+
+
+# reviewed by hand (kind 5): `self` is an internal helper object whose random_state attribute was set from the strategy's per-call
+# copy (_bald.py _DynamicJointEntropy, _cost_embedding_al.py MDS), resp. the callee copies (majority_vote -> rand_argmax ->
+# skactiveml.utils.check_random_state deep-copies)
+REVIEWED = {
+    "skactiveml/pool/_bald.py:add_variables:5",
+    "skactiveml/pool/_cost_embedding_al.py:fit_transform:5",
+    "skactiveml/pool/multiannotator/_interval_estimation_threshold.py:fit:5",
+}
 
 
 def module_name(path):
@@ -55,6 +68,21 @@ def scan(root=REPO + "/skactiveml"):
                     if "random_state" in nm or nm in ("seed", "random_seed"):
                         sites.append((4, os.path.relpath(path, REPO), funcs.get(id(node), "<module>"), node.lineno,
                                       f"seed chosen by truthiness: {ast.unparse(node)[:60]}"))
+            # kind 5: raw self.random_state used outside the copying validators
+            parents = {}
+            for node in ast.walk(tree):
+                for ch in ast.iter_child_nodes(node):
+                    parents[id(ch)] = node
+            for node in ast.walk(tree):
+                if isinstance(node, ast.Attribute) and node.attr == "random_state" and isinstance(node.value, ast.Name) and node.value.id == "self" \
+                        and isinstance(node.ctx, ast.Load):
+                    par = parents.get(id(node))
+                    if isinstance(par, ast.keyword):
+                        par = parents.get(id(par))
+                    okcall = isinstance(par, ast.Call) and ((isinstance(par.func, ast.Name) and par.func.id in ("check_random_state", "deepcopy", "check_type", "isinstance"))
+                                                            or (isinstance(par.func, ast.Attribute) and par.func.attr in ("deepcopy",)))
+                    if not okcall:
+                        sites.append((5, os.path.relpath(path, REPO), funcs.get(id(node), "<module>"), node.lineno, "raw self.random_state handed on"))
             for node in ast.walk(tree):
                 if not isinstance(node, ast.Call):
                     continue
